@@ -64,6 +64,9 @@ def auto_rewrites(text):
     # R1  for &x in E {      ->  for x__r in it__x: E { let x = *x__r;     (also names the ghost iterator, see R12)
     text = sub('R1 for-ref-pattern', r'\bfor\s+&([a-z_][A-Za-z0-9_]*)\s+in\s+(?![a-z_][A-Za-z0-9_]*\s*:[^:])([^{]+?)\s*\{',
                r'for \1__r in it__\1: \2 { let \1 = *\1__r;', text)
+    # R25 for (a, b) in E {  ->  for a__pr in it__a: E { let (a, b) = a__pr;     (Rust's own desugaring of a tuple pattern)
+    text = sub('R25 for-tuple-pattern', r'\bfor\s+\(\s*([a-z_][A-Za-z0-9_]*)\s*,\s*([a-z_][A-Za-z0-9_]*)\s*\)\s+in\s+([^{]+?)\s*\{',
+               r'for \1__pr in it__\1: \3 { let (\1, \2) = \1__pr;', text)
     # R12 for x in E {       ->  for x in it__x: E {      (Verus syntax naming the loop's ghost iterator so that invariants
     #                                                      can mention the position; no executable meaning)
     text = sub('R12 name-ghost-iterator', r'\bfor\s+([a-z_][A-Za-z0-9_]*)\s+in\s+(?![a-z_][A-Za-z0-9_]*\s*:[^:])([^{]+?)\s*\{',
@@ -425,7 +428,7 @@ def render_extract(ex, report, vacuity=False):
         li = bmsk.count('\n', 0, brace_off)
         col = brace_off - (bmsk.rfind('\n', 0, brace_off) + 1) + 1
         # stay behind the `let x = *x__r;` that R1 put right after the brace
-        m = re.match(r'\s*let [a-z_][A-Za-z0-9_]* = \*[a-z_][A-Za-z0-9_]*__r;', bmsk[brace_off + 1:])
+        m = re.match(r'\s*let (?:[a-z_][A-Za-z0-9_]* = \*[a-z_][A-Za-z0-9_]*__r|\([a-z_][A-Za-z0-9_]*, [a-z_][A-Za-z0-9_]*\) = [a-z_][A-Za-z0-9_]*__pr);', bmsk[brace_off + 1:])
         if m:
             col += m.end()
         inline[(li, col)] = lines
